@@ -2542,7 +2542,7 @@ func (t *tr2) regionDecl(fd *ast.FuncDecl, name string, marker string) string {
 	default:
 		return t.fail(fd, "unknown region")
 	}
-	region := fd.Body.List[start:end]
+	region := t.dropBookkeeping(fd.Body.List[start:end])
 	for _, f := range fields {
 		t.kinds[f.key] = f.kind
 		ps = append(ps, "("+leanName(f.key)+" : "+leanTypeOfKind[f.kind]+")")
@@ -2591,6 +2591,69 @@ func (t *tr2) regionDecl(fd *ast.FuncDecl, name string, marker string) string {
 	}
 	body := strings.Join(strings.Fields(t.block(region, "(some "+tup+")", false)), " ")
 	return strings.Join(t.loops, "\n") + fmt.Sprintf("def %s %s : %s :=\n  %s\n", name, strings.Join(ps, " "), t.retType, body)
+}
+
+// dropBookkeeping leaves out of a region the top-level statements that only touch receiver fields outside the
+// modelled state (Entries, Next, heads, Clock …): `l.f++`, `l.f = <call-free expression>`, and the Lock/Unlock
+// calls of a mutex field other than the log's lock.  No translated expression can read such a field (reading an
+// unknown field is untranslatable), so the modelled state does not depend on them; which fields are written under
+// which lock is the business of the regenerated effect facts (Props/EffectFacts, Props/C13Facts).
+func (t *tr2) dropBookkeeping(stmts []ast.Stmt) []ast.Stmt {
+	modelled := map[string]bool{"Entries": true, "Next": true, "heads": true, "Clock": true, "Identity": true, "ID": true,
+		"SortFn": true, "Storage": true, "AccessController": true, "io": true, "lock": true, "concurrency": true}
+	unmodelled := func(e ast.Expr) bool {
+		sel, ok := e.(*ast.SelectorExpr)
+		if !ok {
+			return false
+		}
+		id, ok := sel.X.(*ast.Ident)
+		return ok && id.Name == t.recv && !modelled[sel.Sel.Name]
+	}
+	callFree := func(e ast.Expr) bool {
+		free := true
+		ast.Inspect(e, func(n ast.Node) bool {
+			if _, ok := n.(*ast.CallExpr); ok {
+				free = false
+			}
+			return true
+		})
+		return free
+	}
+	var out []ast.Stmt
+	for _, st := range stmts {
+		switch x := st.(type) {
+		case *ast.IncDecStmt:
+			if unmodelled(x.X) {
+				continue
+			}
+		case *ast.AssignStmt:
+			all := len(x.Lhs) > 0
+			for _, l := range x.Lhs {
+				if !unmodelled(l) {
+					all = false
+				}
+			}
+			for _, r := range x.Rhs {
+				if !callFree(r) {
+					all = false
+				}
+			}
+			if all {
+				continue
+			}
+		case *ast.ExprStmt:
+			if c, ok := x.X.(*ast.CallExpr); ok && len(c.Args) == 0 {
+				if sel, ok := c.Fun.(*ast.SelectorExpr); ok && unmodelled(sel.X) {
+					switch sel.Sel.Name {
+					case "Lock", "Unlock", "RLock", "RUnlock":
+						continue
+					}
+				}
+			}
+		}
+		out = append(out, st)
+	}
+	return out
 }
 
 // admissionDecl: the test by which the completion section of Fetcher.processQueue admits a fetched entry to the
